@@ -874,14 +874,21 @@ pub fn search_case(o: SearchOpts) -> BoxedStrategy<Case> {
     let size_class = o.hay.size_class;
     let no_empty = o.no_empty;
     let prop = o.prop;
+    // about 1 case in 150: a haystack longer than 64 KiB (a long candidate-free
+    // run, then occurrences around offset 65536) searched in memory
+    let big = prop_oneof![
+        149 => Just(None),
+        1 => (any::<u16>(), any::<u16>(), any::<u8>(), any::<u16>()).prop_map(Some),
+    ];
     (
         cfg_strategy(&o.cfg),
         alpha_strategy(&o.alphabets),
         pat_list(o.pats),
         hay_recipe(o.hay),
         span_recipe(o.full_span_only),
+        big,
     )
-        .prop_map(move |((cfg, anchored), ai, plist, pieces, sr)| {
+        .prop_map(move |((cfg, anchored), ai, plist, pieces, sr, big)| {
             let alpha = alphabet(ai);
             let mut patterns = realize_patterns(&plist, &alpha);
             if no_empty {
@@ -898,6 +905,14 @@ pub fn search_case(o: SearchOpts) -> BoxedStrategy<Case> {
             if haystack.len() > 50_000 {
                 haystack.truncate(50_000);
             }
+            let mut is_big = false;
+            if let Some((which, back, fill, tail)) = big {
+                if !patterns.is_empty() && total <= 2_000 && patterns.iter().any(|p| !p.is_empty()) {
+                    patterns.truncate(8);
+                    haystack = big_stream(&patterns, which, back, fill, tail);
+                    is_big = true;
+                }
+            }
             let span = realize_span(sr, haystack.len());
             let sub = match plist {
                 PatList::General(_) => "general",
@@ -912,9 +927,10 @@ pub fn search_case(o: SearchOpts) -> BoxedStrategy<Case> {
                 PatList::ManyThenOdd { .. } => "manythenodd",
                 PatList::DeepNested { .. } => "deepnested",
             };
+            let sub = if is_big { format!("{}+big-haystack", sub) } else { sub.to_string() };
             Case {
                 prop: prop.to_string(),
-                sub: sub.to_string(),
+                sub,
                 cfg,
                 patterns,
                 haystack,
@@ -936,7 +952,9 @@ pub fn big_stream(patterns: &[Vec<u8>], which: u16, back: u16, fill: u8, tail: u
     let mut f = fill;
     for d in 0..=255u8 {
         let c = fill.wrapping_add(d);
-        if patterns.iter().all(|q| q.first() != Some(&c)) {
+        // a byte that occurs in no pattern at all (neither a first byte nor a
+        // rare byte), if there is one
+        if patterns.iter().all(|q| !q.contains(&c)) {
             f = c;
             break;
         }
